@@ -25,10 +25,13 @@ def load_unit(name):
     return u
 
 
-def run_vx(repo, unit, outdir):
-    job = {"repo": repo, "rewrite": unit.get("rewrite", {}), "items": unit["item"]}
+def run_vx(repo, unit, outdir, canary=False):
+    items = unit["item"]
+    if canary:
+        items = [dict(it, canary=True) for it in items]
+    job = {"repo": repo, "rewrite": unit.get("rewrite", {}), "items": items}
     os.makedirs(outdir, exist_ok=True)
-    jp = os.path.join(outdir, unit["_name"] + ".job.json")
+    jp = os.path.join(outdir, unit["_name"] + (".canary" if canary else "") + ".job.json")
     with open(jp, "w") as f:
         json.dump(job, f)
     vx = VX if os.path.exists(VX) else os.path.join(VERIF, "vx", "target", "debug", "vx")
@@ -39,8 +42,8 @@ def run_vx(repo, unit, outdir):
     return res
 
 
-def generate(repo, unit, outdir):
-    res = run_vx(repo, unit, outdir)
+def generate(repo, unit, outdir, canary=False):
+    res = run_vx(repo, unit, outdir, canary)
     if res["errors"]:
         raise Undecided("extraction: " + "; ".join(e["kind"] + ": " + e["msg"] for e in res["errors"]))
     prelude_path = os.path.join(VERIF, "contracts", "verus", unit["prelude"])
@@ -61,7 +64,7 @@ def generate(repo, unit, outdir):
             sl = it["line_map"][i] if i < len(it["line_map"]) else 0
             linemap.append((it["file"], sl, it["id"]) if sl else (it["file"], 0, it["id"]))
     text = head + "\n".join(body) + "\n" + tail
-    out = os.path.join(outdir, "vx_" + unit["_name"] + ".rs")
+    out = os.path.join(outdir, "vx_" + unit["_name"] + ("_canary" if canary else "") + ".rs")
     with open(out, "w") as f:
         f.write(text)
     return out, linemap, res
